@@ -212,6 +212,8 @@ impl Out {
             *n += 1;
             if *n <= 500 {
                 writeln!(self.oracle, "{}\t{}\t{}", class, id, what().replace('\n', " ")).unwrap();
+                // failures are rare: make sure they survive if the harness itself dies later
+                self.oracle.flush().unwrap();
             }
         }
     }
